@@ -321,6 +321,24 @@ theorem vcv_rotation_31 (v : ℝ × ℝ × ℝ) (lat lon : ℝ) :
 
 /-! ## 4. error ellipse -/
 
+/-- Python `max(x, 0.0)` is the identity on nonnegative `x` -/
+theorem pmax_of_nonneg {x : ℝ} (hx : 0 ≤ x) : pmax x 0 = x := by
+  unfold pmax; rw [if_neg (not_lt.mpr hx)]
+
+theorem pmax_eq_max (a b : ℝ) : pmax a b = max a b := by
+  unfold pmax
+  split_ifs with h
+  · exact (max_eq_right h.le).symm
+  · exact (max_eq_left (not_lt.mp h)).symm
+
+/-- the semi-minor axis as returned by the generated code (with the `max(·, 0.0)` guard) -/
+theorem ellipse_b_eq (V : T9) :
+    (error_ellipse V).2.1 = Real.sqrt (pmax ((V.1 + V.2.2.2.2.1
+      - Real.sqrt ((V.1 - V.2.2.2.2.1) ^ 2 + 4 * V.2.1 ^ 2)) / 2) 0) := by
+  have h0 : dec 0 1 = (0 : ℝ) := by norm_num [dec]
+  have h5 : ∀ x : ℝ, dec 5 1 * x = x / 2 := by intro x; simp only [dec]; ring
+  simp only [error_ellipse, h5, h0, pown, sqrt]
+
 /-- closed form of the squares of the semi-axes, for a PSD horizontal block -/
 theorem ellipse_sq (V : T9) (hve : 0 ≤ V.1) (hvn : 0 ≤ V.2.2.2.2.1)
     (hdet : V.2.1 ^ 2 ≤ V.1 * V.2.2.2.2.1) :
@@ -341,9 +359,8 @@ theorem ellipse_sq (V : T9) (hve : 0 ≤ V.1) (hvn : 0 ≤ V.2.2.2.2.1)
   · show Real.sqrt (dec 5 1 * ((V.1 + V.2.2.2.2.1) + z)) ^ 2 = _
     rw [Real.sq_sqrt (by simp only [dec]; norm_num; linarith)]
     simp only [dec]; ring
-  · show Real.sqrt (dec 5 1 * ((V.1 + V.2.2.2.2.1) - z)) ^ 2 = _
-    rw [Real.sq_sqrt (by simp only [dec]; norm_num; linarith)]
-    simp only [dec]; ring
+  · have hnn : 0 ≤ (V.1 + V.2.2.2.2.1 - z) / 2 := by linarith
+    rw [ellipse_b_eq, pmax_of_nonneg hnn, Real.sq_sqrt hnn]
 
 /-- **C16.4** For `error_ellipse V = (a, b, θ)` with a positive-semidefinite horizontal block
 `[[vₑ, c], [c, vₙ]]` (`vₑ = V₀₀`, `c = V₀₁`, `vₙ = V₁₁`): `a² + b² = vₑ + vₙ` (trace),
@@ -370,10 +387,11 @@ theorem ellipse_axes (V : T9) (hve : 0 ≤ V.1) (hvn : 0 ≤ V.2.2.2.2.1)
     show (error_ellipse V).1 ^ 2 * (error_ellipse V).2.1 ^ 2 = V.1 * V.2.2.2.2.1 - V.2.1 ^ 2
     rw [ha2, hb2]; linear_combination (-1 / 4) * hz2
   have hb0 : 0 ≤ b := Real.sqrt_nonneg _
+  have ha0 : 0 ≤ a := Real.sqrt_nonneg _
   have hba : b ≤ a := by
-    show Real.sqrt (dec 5 1 * ((V.1 + V.2.2.2.2.1) - z)) ≤ Real.sqrt (dec 5 1 * ((V.1 + V.2.2.2.2.1) + z))
-    apply Real.sqrt_le_sqrt
-    simp only [dec]; norm_num; linarith
+    rw [← pow_le_pow_iff_left₀ hb0 ha0 (two_ne_zero)]
+    show (error_ellipse V).2.1 ^ 2 ≤ (error_ellipse V).1 ^ 2
+    rw [ha2, hb2]; linarith
   refine ⟨hsum, hprod, hba, hb0, ?_, ?_⟩
   · intro t; linear_combination t * hsum - hprod
   · rw [Matrix.charpoly_fin_two, Matrix.trace_fin_two_of, Matrix.det_fin_two_of]
@@ -385,6 +403,28 @@ theorem ellipse_axes (V : T9) (hve : 0 ≤ V.1) (hvn : 0 ≤ V.2.2.2.2.1)
 
 example : ∃ V : T9, 0 ≤ V.1 ∧ 0 ≤ V.2.2.2.2.1 ∧ V.2.1 ^ 2 ≤ V.1 * V.2.2.2.2.1 :=
   ⟨(2, 1, 0, 1, 2, 0, 0, 0, 1), by norm_num, by norm_num, by norm_num⟩
+
+/-- **C16.4c** rank-deficient PSD horizontal block (`vₑ vₙ = c²`, `vₑ, vₙ ≥ 0`): the ellipse is
+defined and degenerates to a segment, `b = 0` and `a² = vₑ + vₙ` (before the `max(·, 0.0)` guard the
+binary64 evaluation could raise "math domain error" here; in exact arithmetic the guarded term is
+exactly 0). -/
+theorem ellipse_defined_singular (V : T9) (hve : 0 ≤ V.1) (hvn : 0 ≤ V.2.2.2.2.1)
+    (hdet : V.1 * V.2.2.2.2.1 = V.2.1 ^ 2) :
+    (error_ellipse V).2.1 = 0 ∧ (error_ellipse V).1 ^ 2 = V.1 + V.2.2.2.2.1 := by
+  obtain ⟨hz0, hzle, hz2, ha2, hb2⟩ := ellipse_sq V hve hvn hdet.ge
+  have hs : 0 ≤ V.1 + V.2.2.2.2.1 := by linarith
+  have hz : Real.sqrt ((V.1 - V.2.2.2.2.1) ^ 2 + 4 * V.2.1 ^ 2) = V.1 + V.2.2.2.2.1 := by
+    rw [show (V.1 - V.2.2.2.2.1) ^ 2 + 4 * V.2.1 ^ 2 = (V.1 + V.2.2.2.2.1) ^ 2 by
+      linear_combination (-4) * hdet]
+    exact Real.sqrt_sq hs
+  simp only [hz] at ha2 hb2
+  constructor
+  · have : (error_ellipse V).2.1 ^ 2 = 0 := by rw [hb2]; ring
+    exact pow_eq_zero_iff (two_ne_zero) |>.mp this
+  · rw [ha2]; ring
+
+example : ∃ V : T9, 0 ≤ V.1 ∧ 0 ≤ V.2.2.2.2.1 ∧ V.1 * V.2.2.2.2.1 = V.2.1 ^ 2 :=
+  ⟨(1, 2, 0, 2, 4, 0, 0, 0, 1), by norm_num, by norm_num, by norm_num⟩
 
 /-- **C16.4b** the returned orientation (degrees, a bearing: clockwise from north; `θ` below is that
 value converted to radians, `orientation·π/180`) points along the major axis: `(sin θ, cos θ)`
@@ -618,6 +658,7 @@ end GeodeVerif.C16
 #print axioms GeodeVerif.C16.vcv_rotation_31
 #print axioms GeodeVerif.C16.ellipse_axes
 #print axioms GeodeVerif.C16.ellipse_orientation
+#print axioms GeodeVerif.C16.ellipse_defined_singular
 #print axioms GeodeVerif.C16.relative_error_def
 #print axioms GeodeVerif.C16.relative_error_eq
 #print axioms GeodeVerif.C16.k_table_logic
